@@ -321,6 +321,18 @@ impl Run {
     S::Value: Serialize + serde::de::DeserializeOwned + Clone + std::fmt::Debug,
     F: Fn(&S::Value, &mut CaseRec) -> Result<(), Violation> + Send + Sync,
   {
+    self.prop_boxed(sub, cases, workers, max_shrink_iters, || strat.clone(), prop)
+  }
+
+  /// Like `prop`, but the strategy is built inside each worker by `make` (for strategies that
+  /// are not Send/Sync, e.g. boxed ones).
+  pub fn prop_boxed<S, G, F>(&self, sub: &str, cases: u32, workers: u32, max_shrink_iters: u32, make: G, prop: F)
+  where
+    S: Strategy,
+    G: Fn() -> S + Sync,
+    S::Value: Serialize + serde::de::DeserializeOwned + Clone + std::fmt::Debug,
+    F: Fn(&S::Value, &mut CaseRec) -> Result<(), Violation> + Send + Sync,
+  {
     if let Some((rsub, case, path)) = &self.replay {
       if rsub != sub {
         return;
@@ -351,7 +363,7 @@ impl Run {
     let any_failed = AtomicBool::new(false);
     std::thread::scope(|scope| {
       for w in 0..workers {
-        let strat = strat.clone();
+        let make = &make;
         let prop = &prop;
         let any_failed = &any_failed;
         scope.spawn(move || {
@@ -363,6 +375,7 @@ impl Run {
             max_global_rejects: 65536,
             ..Config::default()
           };
+          let strat = make();
           let mut runner = TestRunner::new(cfg);
           let failed = AtomicBool::new(false);
           let last_violation: Mutex<Option<Violation>> = Mutex::new(None);
